@@ -20,15 +20,12 @@ Proof. exact fact_total. Qed.
 Print Assumptions C06_table_total.
 
 (* Before the first key exchange completes only the message the exchange calls for next is handled:
-   KEXINIT first, then the exchange-specific message of the peer's role, then NEWKEYS.
-   PARTIAL: the full statement has no exception; the code as it is also handles a KEXINIT that arrives
-   between its own NEWKEYS and the peer's when strict KEX was not negotiated (see
-   C06_early_kexinit_refuted).  Everything else is proved. *)
-Theorem C06_prekex_partial : forall sv ph sk va t, 0 <= ph < 9 -> 0 <= va < 4 -> 0 <= t < 256 ->
-  ph <= 2 -> lookup gate_row sv ph sk va t = VH ->
-  calls_for sv ph t = true \/ (sk = false /\ ph = 2 /\ t = 20).
+   KEXINIT first, then the exchange-specific message of the peer's role, then NEWKEYS - in every role,
+   with and without strict KEX, well-formed or damaged. *)
+Theorem C06_prekex : forall sv ph sk va t, 0 <= ph < 9 -> 0 <= va < 4 -> 0 <= t < 256 ->
+  ph <= 2 -> lookup gate_row sv ph sk va t = VH -> calls_for sv ph t = true.
 Proof. exact fact_prekex. Qed.
-Print Assumptions C06_prekex_partial.
+Print Assumptions C06_prekex.
 
 (* Before authentication completes nothing of the connection layer (types 80..255) is handled. *)
 Theorem C06_preauth : forall sv ph sk va t, 0 <= ph < 9 -> 0 <= va < 4 -> 0 <= t < 256 ->
@@ -78,39 +75,46 @@ Theorem C06_malformed : forall sv ph sk va t, 0 <= ph < 9 -> 0 <= va < 4 -> 0 <=
 Proof. exact fact_malformed. Qed.
 Print Assumptions C06_malformed.
 
-(* ---- the hand model: every state, every run ----------------------------------------------------------------- *)
+(* ---- the hand model of record (the repaired code): every state, every run --------------------------------- *)
 
 (* In EVERY state in which packets are still received in clear (and, as in every reachable such state, no
    authentication object exists), a message of type 50..255 ends the connection. *)
-Theorem C06_gate_prekex : forall fixed fixk c seq t cls,
-  recv_enc c = false -> auth c = 0 -> 49 < t -> closed (dispatch fixed fixk c seq t cls) = true.
-Proof. exact gate_prekex_fatal. Qed.
+Theorem C06_gate_prekex : forall c seq t cls,
+  recv_enc c = false -> auth c = 0 -> 49 < t -> closed (dispatch c seq t cls) = true.
+Proof. exact (gate_prekex_fatal true true). Qed.
 Print Assumptions C06_gate_prekex.
 
 (* In EVERY state in which authentication has not completed, a connection-layer message ends the connection. *)
-Theorem C06_gate_preauth : forall fixed fixk c seq t cls,
-  auth_complete c = false -> 79 < t -> closed (dispatch fixed fixk c seq t cls) = true.
-Proof. exact gate_preauth_fatal. Qed.
+Theorem C06_gate_preauth : forall c seq t cls,
+  auth_complete c = false -> 79 < t -> closed (dispatch c seq t cls) = true.
+Proof. exact (gate_preauth_fatal true true). Qed.
 Print Assumptions C06_gate_preauth.
 
 (* In EVERY state a message only the other role may send ends the connection. *)
-Theorem C06_role_model : forall fixed fixk c seq t cls,
+Theorem C06_role_model : forall c seq t cls,
   (srv c = false /\ (t = 5 \/ t = 30 \/ t = 50)) \/
   (srv c = true /\ (t = 6 \/ t = 31 \/ t = 51 \/ t = 52 \/ t = 53)) ->
-  closed (dispatch fixed fixk c seq t cls) = true.
-Proof. exact role_foreign_fatal. Qed.
+  closed (dispatch c seq t cls) = true.
+Proof. exact (role_foreign_fatal true true). Qed.
 Print Assumptions C06_role_model.
+
+(* In EVERY state in which the peer's NEWKEYS is still awaited (first exchange or a re-exchange) a KEXINIT ends
+   the connection. *)
+Theorem C06_early_kexinit : forall c seq cls,
+  next_recv c = true -> closed (dispatch c seq 20 cls) = true.
+Proof. exact (early_kexinit_fixed true). Qed.
+Print Assumptions C06_early_kexinit.
 
 (* Every run (any list of packets, settle points, the version line), both roles: if strict KEX was negotiated and
    the connection is still up, then what was accepted in clear is the KEXINIT first and after it only
    exchange-specific messages and NEWKEYS - no IGNORE, DEBUG, UNIMPLEMENTED, nothing unknown; and while
    receiving in clear the receive sequence number equals the number of packets accepted (no wrap, no skip). *)
-Theorem C06_strict_initial : forall fixed fixk server (l : list event),
-  let s := run fixed fixk (init server) l in
+Theorem C06_strict_initial : forall server (l : list event),
+  let s := run (init server) l in
   closed (cn s) = false ->
   (strict (cn s) = true -> Forall allowed_clear (clear_acc s) /\ exists r, clear_acc s = 20 :: r) /\
   (recv_enc (cn s) = false -> recv_seq s = Z.of_nat (List.length (clear_acc s))).
-Proof. exact strict_initial_all_runs. Qed.
+Proof. exact (strict_initial_all_runs true true). Qed.
 Print Assumptions C06_strict_initial.
 
 (* Both sequence numbers restart at NEWKEYS under strict KEX.  Receive side, every run: whenever the last
@@ -118,57 +122,56 @@ Print Assumptions C06_strict_initial.
    on the wire first, and booking any packet list that contains a NEWKEYS leaves the counter at the number of
    packets sent after the last one. *)
 Theorem C06_seq_reset :
-  (forall fixed fixk server (l : list event),
-     let s := run fixed fixk (init server) l in
+  (forall server (l : list event),
+     let s := run (init server) l in
      last_recv s = 21 -> strict (cn s) = true -> closed (cn s) = false -> recv_seq s = 0) /\
   (forall c, exists r, olog (send_newkeys c) = olog c ++ (21, 0) :: r) /\
   (forall l1 l2 s, strict (cn s) = true -> ~ In 21 l2 ->
      send_seq (note_all s (l1 ++ 21 :: l2)) = Z.of_nat (List.length l2) mod M32).
-Proof. split; [exact recv_seq_reset_all_runs | split; [exact send_newkeys_olog | exact send_seq_reset]]. Qed.
+Proof. split; [exact (recv_seq_reset_all_runs true true) | split; [exact send_newkeys_olog | exact send_seq_reset]]. Qed.
 Print Assumptions C06_seq_reset.
 
 (* "A client accepts an authentication-success message only while a request of its own is outstanding":
-   REFUTED for the code as it is (both repair switches off): there is a run - SERVICE_ACCEPT and USERAUTH_SUCCESS in
-   one chunk - after which the client is authenticated, the connection is up, and the success was accepted
-   while no request had been issued for the current authentication object. *)
-Theorem C06_success_outstanding_refuted : exists l : list event,
-  let s := run false false (init false) l in
-  auth_complete (cn s) = true /\ closed (cn s) = false /\ unsolicited (cn s) = true.
-Proof. exists unsolicited_witness. exact (success_unsolicited_cur false). Qed.
-Print Assumptions C06_success_outstanding_refuted.
-
-(* With the proposed repair (fixed = true: success additionally requires that a request was issued for the
-   current authentication object and not yet answered) no run accepts an unsolicited success. *)
-Theorem C06_success_outstanding_fixed : forall fixk server (l : list event),
-  unsolicited (cn (run true fixk (init server) l)) = false.
-Proof. intros fixk server l. apply success_outstanding_fixed_all_runs. reflexivity. Qed.
-Print Assumptions C06_success_outstanding_fixed.
+   in every run, of either role, no USERAUTH_SUCCESS is ever accepted while no request has been issued for
+   the current authentication object ([unsolicited] is the ghost flag raised by exactly that event). *)
+Theorem C06_success_outstanding : forall server (l : list event),
+  unsolicited (cn (run (init server) l)) = false.
+Proof. intros server l. apply (success_outstanding_fixed_all_runs true). reflexivity. Qed.
+Print Assumptions C06_success_outstanding.
 
 (* Once a server has completed authentication for user u and no authentication task is pending, no sequence of
    packets whatsoever changes the authenticated user (the connection may end). *)
-Theorem C06_identity_final : forall fixed fixk u s (l : list event),
-  post_ok u (cn s) -> closed (cn (run fixed fixk s l)) = true \/ post_ok u (cn (run fixed fixk s l)).
-Proof. intros fixed fixk u s l H. apply (run_post_inv fixed fixk u l s). right. exact H. Qed.
+Theorem C06_identity_final : forall u s (l : list event),
+  post_ok u (cn s) -> closed (cn (run s l)) = true \/ post_ok u (cn (run s l)).
+Proof. intros u s l H. apply (run_post_inv true true u l s). right. exact H. Qed.
 Print Assumptions C06_identity_final.
 
-(* REFUTED for the code as it is: with strict KEX not negotiated, a KEXINIT arriving after our NEWKEYS went out
-   and before the peer's NEWKEYS came in is handled (a second exchange starts: KEXINIT and ECDH_INIT are sent). *)
-Theorem C06_early_kexinit_refuted : exists (l : list event),
-  let s := run false false (init false) l in
+(* ---- about the OLD definitions (the code before /repo 5ecc05e and 9276b6d), kept as witnesses ---------------- *)
+
+(* run_old: success was accepted on the mere existence of an authentication object.  There is a run -
+   SERVICE_ACCEPT and USERAUTH_SUCCESS in one chunk - after which the client is authenticated, the connection
+   is up, and no request had been issued (finding C06-1). *)
+Theorem C06_success_outstanding_old_refuted : exists l : list event,
+  let s := run_old (init false) l in
+  auth_complete (cn s) = true /\ closed (cn s) = false /\ unsolicited (cn s) = true.
+Proof. exists unsolicited_witness. exact (success_unsolicited_cur false). Qed.
+Print Assumptions C06_success_outstanding_old_refuted.
+
+(* run_old: with strict KEX not negotiated, a KEXINIT arriving after our NEWKEYS went out and before the peer's
+   came in was handled - a second exchange started, KEXINIT and ECDH_INIT were sent (finding C06-2). *)
+Theorem C06_early_kexinit_old_refuted : exists (l : list event),
+  let s := run_old (init false) l in
   next_recv (cn s) = true /\ recv_enc (cn s) = false /\ closed (cn s) = false /\
-  let s' := step_booked false false s (EvRecv 20 0) in
+  let s' := step_booked_old s (EvRecv 20 0) in
   closed (cn s') = false /\ kex (cn s') = true /\ map fst (olog (cn s')) = [20; 30].
 Proof.
   exists early_kexinit_witness. destruct (early_kexinit_cur false) as (A & B & _ & C & D). auto.
 Qed.
-Print Assumptions C06_early_kexinit_refuted.
+Print Assumptions C06_early_kexinit_old_refuted.
 
-(* With the proposed repair (fixk = true) a KEXINIT ends the connection in EVERY state in which the peer's
-   NEWKEYS is still awaited. *)
-Theorem C06_early_kexinit_fixed : forall fixed c seq cls,
-  next_recv c = true -> closed (dispatch fixed true c seq 20 cls) = true.
-Proof. exact early_kexinit_fixed. Qed.
-Print Assumptions C06_early_kexinit_fixed.
+(* the witness run of C06_success_outstanding_old_refuted ends the connection in the model of record *)
+Example C06_ex_unsolicited_now_fatal : closed (cn (run (init false) unsolicited_witness)) = true.
+Proof. exact (success_unsolicited_fixed_witness true). Qed.
 
 (* ---- non-vacuity ---------------------------------------------------------------------------------------------- *)
 Example C06_ex_handled_kexinit : lookup gate_row false 0 true 0 20 = VH.
@@ -179,9 +182,9 @@ Example C06_ex_strict_ignore_fatal : lookup gate_row true 2 true 0 2 = VF.
 Proof. vm_compute. reflexivity. Qed.
 Example C06_ex_late_request_ignored : lookup gate_row true 5 true 0 50 = VI.
 Proof. vm_compute. reflexivity. Qed.
-Example C06_ex_post_ok : forall fixed fixk, post_ok 1 (cn (run fixed fixk (init true) server_login)).
-Proof. exact server_login_post_ok. Qed.
+Example C06_ex_post_ok : post_ok 1 (cn (run (init true) server_login)).
+Proof. exact (server_login_post_ok true true). Qed.
 Example C06_ex_strict_run :
-  let s := run false false (init true) [EvVersion; EvRecv 20 1; EvSettle; EvRecv 30 0; EvSettle; EvRecv 21 0] in
+  let s := run (init true) [EvVersion; EvRecv 20 1; EvSettle; EvRecv 30 0; EvSettle; EvRecv 21 0] in
   strict (cn s) = true /\ closed (cn s) = false /\ clear_acc s = [20; 30; 21] /\ recv_seq s = 0 /\ last_recv s = 21.
 Proof. vm_compute. auto. Qed.
